@@ -165,7 +165,8 @@ Definition is_word (s : string) : bool :=
 (* guess_type on the fragment; None = outside the fragment (not modelled) *)
 Definition guess (s : string) : option value :=
   let l := lower s in
-  if String.eqb l "none" then Some VNull
+  if String.eqb s "" then Some (VStr "")          (* literal_eval('') is a SyntaxError: the empty string itself *)
+  else if String.eqb l "none" then Some VNull
   else if String.eqb l "true" then Some (VBool true)
   else if String.eqb l "false" then Some (VBool false)
   else match number s with
